@@ -315,6 +315,8 @@ def place_str(e):
     """Place text (as used by store events) for simple place expressions rooted at an argument."""
     if e[0] == "ref":
         return place_str(e[1])
+    if e[0] in ("call", "pure") and len(e) > 2 and len(e[2]) == 1 and short(e[1]) in ("as_mut", "as_ref") and "option::Option" in e[1]:
+        return place_str(e[2][0])      # opt.as_mut() / opt.as_ref(): a view of the same place
     if e[0] == "arg":
         return "_%d" % e[1]
     if e[0] == "deref":
